@@ -1018,6 +1018,8 @@ class Curve(BaseCurve):
         error = np.dot(
             np.moveaxis(other.ctrlpoints, 0, -1), np.dot(materror, other.ctrlpoints)
         )
+        if np.ndim(error) > 1:
+            error = np.diag(error)  # error of each coordinate
         error = np.max(np.abs(error))
         self.ctrlpoints = ctrlpoints
         return error
